@@ -385,3 +385,34 @@ def show(t, depth=0):
     if h == "opaque":
         return "?<%s>" % t[1][:40]
     return h + "(" + ", ".join(show(x, d) for x in t[1:]) + ")"
+
+
+def renorm(t, rename=None, _memo=None):
+    """rebuild a term bottom-up (re-sorting commutative operands), optionally renaming
+    function/symbol name strings with rename(str) -> str."""
+    if _memo is None:
+        _memo = {}
+    if not isinstance(t, tuple):
+        if isinstance(t, str) and rename is not None:
+            return rename(t)
+        return t
+    if not t:
+        return t
+    k = id(t)
+    if k in _memo:
+        return _memo[k][1]
+    h = t[0]
+    if h == "num":
+        r = t
+    elif h == "add":
+        r = add(*[renorm(x, rename, _memo) for x in t[1:]])
+    elif h == "mul":
+        r = mul(*[renorm(x, rename, _memo) for x in t[1:]])
+    elif h == "pow":
+        r = power(renorm(t[1], rename, _memo), renorm(t[2], rename, _memo))
+    elif isinstance(h, str):
+        r = (h,) + tuple(renorm(x, rename, _memo) for x in t[1:])
+    else:
+        r = tuple(renorm(x, rename, _memo) for x in t)
+    _memo[k] = (t, r)
+    return r
